@@ -361,6 +361,9 @@ func rewriteNative(name string, src []byte) ([]byte, error) {
 				sw.Body.List = append(sw.Body.List, &ast.CaseClause{List: []ast.Expr{idx}, Body: body})
 			}
 			sw.Tag = zz("SelectRecv", chans...)
+			// keep the statement terminating when every case returns
+			sw.Body.List = append(sw.Body.List, &ast.CaseClause{Body: []ast.Stmt{
+				&ast.ExprStmt{X: &ast.CallExpr{Fun: ast.NewIdent("panic"), Args: []ast.Expr{&ast.BasicLit{Kind: token.STRING, Value: `"zzrt: select"`}}}}}})
 			return sw
 		}
 		return s
